@@ -385,6 +385,30 @@ fn step(ctx: &Ctx, env: &Env, st: &Stats, s: &Snap, e: &Ev) -> Snap {
     n
 }
 
+/// Phase 2 initial states: every (grammar, lexer) pair with the options that change what a build
+/// *reports* rather than what it generates switched off.
+fn alt_initial_states() -> Vec<Snap> {
+    let mut alt_inits: Vec<Snap> = vec![];
+    let off: Vec<Vec<(usize, usize)>> = vec![vec![(4, 1)], vec![(5, 1)], vec![(4, 1), (5, 1)], vec![(6, 1)], vec![]];
+    for g in 0..GRAMMARS.len() {
+        for l in 0..LEXERS.len() {
+            for o in &off {
+                if o.is_empty() && g == 0 && l == 0 {
+                    continue;
+                }
+                let mut sn = Snap { g, l, settings: vec![0; OPTIONS.len()], files: BTreeMap::new(), clock: 0, parser_built_for: None, history: vec![format!("(start from {} / {} with {:?})", GRAMMARS[g].0, LEXERS[l].0, o.iter().map(|(i, v)| format!("{} = {}", OPTIONS[*i].0, OPTIONS[*i].1[*v])).collect::<Vec<_>>())] };
+                for (i, v) in o {
+                    sn.settings[*i] = *v;
+                }
+                sn.files.insert("g.y".into(), FileState { content: GRAMMARS[g].1.as_bytes().to_vec(), mtime: T0 });
+                sn.files.insert("l.l".into(), FileState { content: LEXERS[l].1.as_bytes().to_vec(), mtime: T0 });
+                alt_inits.push(sn);
+            }
+        }
+    }
+    alt_inits
+}
+
 pub fn run(ctx: Ctx) -> i32 {
     let root = PathBuf::from(format!("/verif/target/c18-{}", std::process::id()));
     std::fs::remove_dir_all(&root).ok();
@@ -397,8 +421,15 @@ pub fn run(ctx: Ctx) -> i32 {
     if let Some(case) = load_replay(&ctx) {
         // replay a history given as event names
         let hist: Vec<String> = case["history"].as_array().map(|a| a.iter().map(|x| x.as_str().unwrap_or("").to_string()).collect()).unwrap_or_default();
-        let mut s = init.clone();
-        for h in hist {
+        // a phase-2 history names its (non-default) initial state in its first entry
+        let mut s = match hist.first() {
+            Some(h0) if h0.starts_with("(start from") => match alt_initial_states().into_iter().find(|a| &a.history[0] == h0) {
+                Some(a) => a,
+                None => machinery("replay: unknown initial state"),
+            },
+            _ => init.clone(),
+        };
+        for h in hist.into_iter().filter(|h| !h.starts_with("(start from")) {
             let evs = events(&s, false);
             if let Some(e) = evs.iter().find(|e| ev_name(e) == h) {
                 s = step(&ctx, &env, &st, &s, e);
@@ -462,24 +493,7 @@ pub fn run(ctx: Ctx) -> i32 {
     // that change what a build *reports* rather than what it generates switched off, then:
     // build ; one change ; build. (From the all-defaults initial state these histories need five
     // or more events.)
-    let mut alt_inits: Vec<Snap> = vec![];
-    let off: Vec<Vec<(usize, usize)>> = vec![vec![(4, 1)], vec![(5, 1)], vec![(4, 1), (5, 1)], vec![(6, 1)], vec![]];
-    for g in 0..GRAMMARS.len() {
-        for l in 0..LEXERS.len() {
-            for o in &off {
-                if o.is_empty() && g == 0 && l == 0 {
-                    continue;
-                }
-                let mut sn = Snap { g, l, settings: vec![0; OPTIONS.len()], files: BTreeMap::new(), clock: 0, parser_built_for: None, history: vec![format!("(start from {} / {} with {:?})", GRAMMARS[g].0, LEXERS[l].0, o.iter().map(|(i, v)| format!("{} = {}", OPTIONS[*i].0, OPTIONS[*i].1[*v])).collect::<Vec<_>>())] };
-                for (i, v) in o {
-                    sn.settings[*i] = *v;
-                }
-                sn.files.insert("g.y".into(), FileState { content: GRAMMARS[g].1.as_bytes().to_vec(), mtime: T0 });
-                sn.files.insert("l.l".into(), FileState { content: LEXERS[l].1.as_bytes().to_vec(), mtime: T0 });
-                alt_inits.push(sn);
-            }
-        }
-    }
+    let alt_inits = alt_initial_states();
     let phase2_ok = ctx.start.elapsed().as_secs_f64() <= wall_cap && ctx.nviolations() <= 200;
     if phase2_ok {
         let modes: [&'static str; 2] = ["separate", "both"];
